@@ -174,6 +174,42 @@ Definition do_macro (fx : fixes) (tcp : bool) (x : xstate) (m : macro) : xstate 
 Definition exec (fx : fixes) (tcp : bool) (ms : list macro) : state :=
   xs (fold_left (fun x m => settle fx (do_macro fx tcp x m)) ms (mkX init [] [])).
 
+(* The same run, keeping two more things: the connection states at the instant the first
+   Stop returns, and whether every script step referred to something that exists (a release
+   of something that is not held, a delivery on a connection that was never made, ... make
+   the case a mismatch instead of being skipped silently). *)
+Definition conn_is (s : state) (c : nat) (f : spc -> bool) : bool :=
+  match nth_error (conns s) c with Some k => f (setup k) | None => false end.
+
+Definition macro_ok (x : xstate) (m : macro) : bool :=
+  let s := xs x in
+  match m with
+  | MSendRelease t =>
+      match nth_error (senders s) t with
+      | Some (NConnect _ c _) => conn_is s c (fun x => match x with ORegister | OLaunch => true | _ => false end)
+      | _ => false
+      end
+  | MIncomingRelease c => conn_is s c (fun x => match x with IAccept | ICheck => true | _ => false end)
+  | MSilentClose c | MPeerClose c | MDeliver c _ | MDeliverHold c _ => conn_is s c (fun _ => true)
+  | MDeliverRelease c => mem c (held_disp x)
+  | MStopRelease t => mem t (held_stop x)
+  | _ => true
+  end.
+
+Record xrun := mkR { rx : xstate; rsnap : option (list bool); rbad : bool }.
+
+Definition run_step (fx : fixes) (tcp : bool) (r : xrun) (m : macro) : xrun :=
+  let x' := settle fx (do_macro fx tcp (rx r) m) in
+  mkR x'
+      (match rsnap r with
+       | Some l => Some l
+       | None => if stop_returned (xs x') then Some (map lopen (conns (xs x'))) else None
+       end)
+      (rbad r || negb (macro_ok (rx r) m)).
+
+Definition exec_full (fx : fixes) (tcp : bool) (ms : list macro) : xrun :=
+  fold_left (run_step fx tcp) ms (mkR (mkX init [] []) None false).
+
 (* ---- observations ----------------------------------------------------------- *)
 
 Inductive ores := ROk | RErr | RPending.     (* RPending: the call had not returned at the deadline *)
@@ -182,6 +218,10 @@ Record robs := mkRobs {
   o_sends : list ores;            (* per Send call, in call order *)
   o_stops : list bool;            (* per Stop call: returned *)
   o_open : list bool;             (* per connection in creation order: this router's endpoint still open *)
+  o_open_ret : list bool;         (* the same, sampled at the instant the first Stop call returned (before any
+                                     settling), for the connections that existed then; [] if no Stop returned *)
+  o_exempt_ret : list bool;       (* per sampled connection: its set-up thread was held by the harness before its
+                                     first test of the closed flag (router.connected / router.accepted) *)
   o_disp : list (nat * nat);      (* (connection, message) in dispatch order *)
   o_late : nat;                   (* dispatches that started after a Stop call had returned *)
   o_inprogress : nat;             (* dispatches in progress at the instant a Stop call returned *)
@@ -206,7 +246,10 @@ Fixpoint list_eqb {A} (eqb : A -> A -> bool) (a b : list A) : bool :=
 Definition pair_eqb (a b : nat * nat) : bool := (fst a =? fst b) && (snd a =? snd b).
 
 Definition agree_script (tcp : bool) (ms : list macro) (o : robs) : bool :=
-  let s := exec (mkFx code_fixed_F11 code_fixed_F43) tcp ms in
+  let r := exec_full (mkFx code_fixed_F11 code_fixed_F43) tcp ms in
+  let s := xs (rx r) in
+  negb (rbad r) &&
+  list_eqb Bool.eqb (match rsnap r with Some l => l | None => [] end) (o_open_ret o) &&
   list_eqb ores_eqb (map model_send (senders s)) (o_sends o) &&
   list_eqb Bool.eqb (map stop_done (stops s)) (o_stops o) &&
   list_eqb Bool.eqb (map lopen (conns s)) (o_open o) &&
@@ -270,6 +313,8 @@ Record sobs := mkSobs {
   s_late : nat;                   (* handlers of the target started after Close had returned *)
   s_panic : bool;
   s_ops_pending : nat;            (* racing operations (sends, protocol starts, further closes) that did not return *)
+  s_conns_open : nat;             (* connections of the closed server still open: its own endpoints at the instant
+                                     Close returned + connections its peers still hold to it shortly after *)
   (* implementation-only facts *)
   s_goroutines : nat;             (* onet goroutines above the baseline after everything was closed *)
   s_ports : bool;                 (* both ports could be bound again *)
@@ -278,7 +323,9 @@ Record sobs := mkSobs {
 Definition agree_server (insts : list nat) (ms : list smacro) (o : sobs) : bool :=
   let s := sexec insts ms in
   Bool.eqb (match cpc s with KReturned => true | _ => false end) (s_returned o) &&
-  (length (instances s) =? s_instances o) && Bool.eqb (tcrashed s) (s_panic o).
+  (length (instances s) =? s_instances o) && Bool.eqb (tcrashed s) (s_panic o) &&
+  (* c10_concurrent_close_final_state / c10_registered_closed_at_return: nothing stays open when Close has returned *)
+  (negb (s_returned o) || (s_conns_open o =? 0)).
 
 (* ---- overlapping Close() calls ------------------------------------------------ *)
 
@@ -298,7 +345,7 @@ Definition agree_closerace (k n oks errs pending : nat) (o : sobs) : bool :=
   (count_pc pc_ok (callers s) =? oks) && (count_pc pc_err (callers s) =? errs) &&
   (count_pc (fun p => negb (returned p)) (callers s) =? pending) &&
   Bool.eqb (forallb returned (callers s)) (s_returned o) &&
-  (instances_k s =? s_instances o) && negb (s_panic o).
+  (instances_k s =? s_instances o) && negb (s_panic o) && (negb (s_returned o) || (s_conns_open o =? 0)).
 
 (* ---- a Send blocked in the socket write when Stop is called (TCP) ------------- *)
 
@@ -325,7 +372,8 @@ Definition agree_ctor_held (start_ok : bool) (o : sobs) : bool :=
   | Some s =>
       (regs s =? s_instances o) &&
       Bool.eqb (match nth_error (starts s) 0 with Some PBound => true | _ => false end) start_ok &&
-      Bool.eqb (match ocloser s with OClosed => true | _ => false end) (s_returned o) && negb (s_panic o)
+      Bool.eqb (match ocloser s with OClosed => true | _ => false end) (s_returned o) && negb (s_panic o) &&
+      (negb (s_returned o) || (s_conns_open o =? 0))
   | None => false
   end.
 
@@ -354,8 +402,9 @@ Definition mismatches (l : list case) : list nat := mism_idx agree l.
 (* ---- the property on the observation ---------------------------------------- *)
 (* clause numbers
    1 a peer message was dispatched after close had returned
-   2 a connection the server had opened or accepted is still open after close returned
-     and every racing operation ended
+   2 a connection the server had opened or accepted is still open at the instant close returned
+     (unless its set-up thread had not reached its first test of the closed flag), or after
+     close returned and every racing operation ended
    3 goroutines of the closed server are left behind
    4 a listening port is not released
    5 the database file is not released
@@ -364,9 +413,18 @@ Definition mismatches (l : list case) : list nat := mism_idx agree l.
    8 close itself did not return
    9 a protocol instance is left registered and running after close returned
    10 a receive goroutine was still dispatching a peer message when close returned *)
+(* at the instant close returned a connection may only be open if its set-up thread had not
+   yet reached its first test of the closed flag (a dial in progress cannot be closed by Stop) *)
+Fixpoint open_only_exempt (op ex : list bool) : bool :=
+  match op, ex with
+  | [], _ => true
+  | o :: op', e :: ex' => (negb o || e) && open_only_exempt op' ex'
+  | o :: op', [] => negb o && open_only_exempt op' []
+  end.
+
 Definition check_router (o : robs) : list nat :=
   clause 1 (o_late o =? 0) ++
-  clause 2 (count_true (o_open o) =? 0) ++
+  clause 2 ((count_true (o_open o) =? 0) && open_only_exempt (o_open_ret o) (o_exempt_ret o)) ++
   clause 3 (o_goroutines o =? 0) ++
   clause 4 (o_rebind o) ++
   clause 6 (forallb (fun r => negb (ores_eqb r RPending)) (o_sends o)) ++
@@ -376,6 +434,7 @@ Definition check_router (o : robs) : list nat :=
 
 Definition check_server (o : sobs) : list nat :=
   clause 1 (s_late o =? 0) ++
+  clause 2 (s_conns_open o =? 0) ++
   clause 3 (s_goroutines o =? 0) ++
   clause 4 (s_ports o) ++
   clause 5 (s_db o) ++
